@@ -15,6 +15,7 @@ CONSTANTS
   MaxOpens = 2
   MaxResp = 3
   MaxSC = 1
+  Label = TRUE
 INIT Init
 NEXT Next
 VIEW View
